@@ -7,6 +7,7 @@ import Mathlib.Algebra.Order.Field.Basic
 import Mathlib.Algebra.Order.AbsoluteValue.Basic
 import Mathlib.Data.Rat.Cast.Order
 import OSq.Proofs.SplitOn
+import OSq.Proofs.Writer
 /-
   OSq.Proofs.FloatFmt — the float formatter of `OSq/Model/Text.lean`: Python's `format(x, '.P')` computed from
   the IEEE-754 bits by exact integer arithmetic (`roundSig`, `fmtPos`, `fmtBits`) and the repaired `visit_float`
@@ -18,7 +19,8 @@ import OSq.Proofs.SplitOn
   Recognisers (decidable, on the character list)
   * `isFloatText`    `[-]d+.d+ | [-]d(.d+)?e[+-]dd+`     what Python's `format(x, '.P')` produces for finite `x`
   * `isCqasmFloat`   `[-]d+.d+(e[+-]dd+)?`                cQASM's FLOAT_LITERAL: always a decimal point
-  and their declarative counterparts `FixedForm`, `ExpForm`, `PointExpForm` (explicit decompositions).
+  and their declarative counterparts `FixedForm`, `ExpForm`, `PointExpForm` (explicit decompositions);
+  `isCqasmFloat_iff`: `isCqasmFloat s = true ↔ FixedForm s.toList ∨ PointExpForm s.toList`.
 
   Theorems
   * `fmtPos_eq`, `fmtDigs_form`   `fmtPos` = layout `fmtDigs` of the rounded digits; its two shapes.
@@ -31,6 +33,8 @@ import OSq.Proofs.SplitOn
   * `fmtFloat_literal`    for every finite bit pattern `isCqasmFloat (fixExponent (fmtBits P bits)) = true`;
     `fmtFloat_literal'`   the same for `fmtFloat P x`;  `isCqasmFloat_has_point`: such a text contains `'.'`.
     Counterexample without the repair (`example`s): `fmtBits 8 (bits of 1e-05) = "1e-05"`, not a cQASM literal.
+  * `noNl_fmtFloat`       `fmtFloat P x` never contains a newline (all `x`, also `inf`/`nan`): discharges the
+    `writeStmt_one_line_float`  formatter hypothesis of `OSq.Proofs.Writer.writeStmt_one_line`.
   * `findUp_spec`, `findDown_spec`, `e10_spec`   the decimal exponent search (`10^E ≤ num/den < 10^(E+1)`).
   * `roundHE_spec`        half-even rounding of a quotient is within 1/2 of it.
   * `roundSig_bounds`     for `P ≥ 1`, `den > 0`, `10^-400 ≤ num/den < 10^400`: `roundSig P num den = (d, e)` with
@@ -222,6 +226,62 @@ theorem isFloatTextL_exp {l : List Char} (h : ExpForm l) : isFloatTextL l = true
     cases fp with
     | nil => exact absurd rfl hfpne
     | cons _ _ => rfl
+
+/-! ### The recogniser `isCqasmFloat` accepts exactly the two pointed shapes -/
+
+theorem expTailForm_of_isExpTail {l : List Char} (h : isExpTail l = true) : ExpTailForm l := by
+  cases l with
+  | nil => simp [isExpTail] at h
+  | cons s ds =>
+    simp only [isExpTail, Bool.and_eq_true, Bool.or_eq_true, beq_iff_eq, decide_eq_true_eq, List.all_eq_true] at h
+    exact ⟨s, ds, rfl, h.1.1, h.2, h.1.2⟩
+
+private theorem stripSign_split (l : List Char) : ∃ sg, l = sg ++ stripSign l ∧ (sg = [] ∨ sg = ['-']) := by
+  unfold stripSign
+  split
+  · exact ⟨['-'], rfl, Or.inr rfl⟩
+  · exact ⟨[], rfl, Or.inl rfl⟩
+
+private theorem digits_takeWhile (l : List Char) : Digits (l.takeWhile Char.isDigit) := by
+  intro c hc
+  have := List.all_takeWhile (p := Char.isDigit) (l := l)
+  exact List.all_eq_true.1 this c hc
+
+/-- the recogniser accepts exactly `[-]d+.d+` and `[-]d+.d+e[+-]dd+` -/
+theorem isCqasmFloatL_iff (l : List Char) : isCqasmFloatL l = true ↔ FixedForm l ∨ PointExpForm l := by
+  constructor
+  · intro h
+    obtain ⟨sg, hl, hsg⟩ := stripSign_split l
+    unfold isCqasmFloatL at h
+    simp only [] at h
+    have hsplit := List.takeWhile_append_dropWhile (p := Char.isDigit) (l := stripSign l)
+    have hip := digits_takeWhile (stripSign l)
+    generalize (stripSign l).takeWhile Char.isDigit = ip at *
+    generalize hr0 : (stripSign l).dropWhile Char.isDigit = r0 at *
+    split at h
+    · next r =>
+      have hsplit2 := List.takeWhile_append_dropWhile (p := Char.isDigit) (l := r)
+      have hfp := digits_takeWhile r
+      generalize r.takeWhile Char.isDigit = fp at *
+      generalize r.dropWhile Char.isDigit = r2 at *
+      simp only [Bool.and_eq_true, Bool.not_eq_true', List.isEmpty_eq_false_iff] at h
+      obtain ⟨⟨hipne, hfpne⟩, h3⟩ := h
+      split at h3
+      · left
+        refine ⟨sg, ip, fp, ?_, hsg, hip, hipne, hfp, hfpne⟩
+        rw [hl, ← hsplit, ← hsplit2]; simp
+      · next t =>
+        right
+        refine ⟨sg, ip, fp, t, ?_, hsg, hip, hipne, hfp, hfpne, expTailForm_of_isExpTail h3⟩
+        rw [hl, ← hsplit, ← hsplit2]; simp
+      · cases h3
+    · cases h
+  · rintro (h | h)
+    · exact isCqasmFloatL_fixed h
+    · exact isCqasmFloatL_pointExp h
+
+theorem isCqasmFloat_iff (s : String) :
+    isCqasmFloat s = true ↔ FixedForm s.toList ∨ PointExpForm s.toList := isCqasmFloatL_iff _
 
 /-! ### `fmtPos` -/
 
@@ -507,6 +567,48 @@ example : fmtPos 8 1 100000 = "1e-05" := by decide
 example : isCqasmFloat "1e-05" = false := by decide
 example : isFloatText "1e-05" = true := by decide
 example : isCqasmFloat "1.0e-05" = true := by decide
+
+/-! ### Link to `OSq.Proofs.Writer`: the formatter never produces a newline -/
+
+theorem expTailForm_no_nl {l : List Char} (h : ExpTailForm l) : '\n' ∉ l := by
+  obtain ⟨s, ds, rfl, hs, hd, _⟩ := h
+  simp only [List.mem_cons, not_or]
+  refine ⟨?_, hd.not_mem '\n' rfl⟩
+  rcases hs with rfl | rfl <;> decide
+
+theorem form_no_nl {l : List Char} (h : FixedForm l ∨ PointExpForm l) : '\n' ∉ l := by
+  rcases h with ⟨sg, ip, fp, rfl, hsg, hip, _, hfp, _⟩ | ⟨sg, ip, fp, ex, rfl, hsg, hip, _, hfp, _, hex⟩
+  · simp only [List.mem_append, List.mem_cons, not_or]
+    refine ⟨⟨?_, hip.not_mem '\n' rfl⟩, by decide, hfp.not_mem '\n' rfl⟩
+    rcases hsg with rfl | rfl <;> decide
+  · simp only [List.mem_append, List.mem_cons, not_or]
+    refine ⟨⟨⟨?_, hip.not_mem '\n' rfl⟩, by decide, hfp.not_mem '\n' rfl⟩, by decide, expTailForm_no_nl hex⟩
+    rcases hsg with rfl | rfl <;> decide
+
+/-- The float formatter never produces a newline (hypothesis `hfmt` of `writeStmt_one_line`), for *every* bit
+    pattern including `inf` and `nan`. -/
+theorem noNl_fixExponent_fmtBits (P : Nat) (bits : UInt64) : noNl (fixExponent (fmtBits P bits)) := by
+  by_cases hf : FiniteBits bits
+  · exact form_no_nl (fixExponent_form _ (fmtBits_form P bits hf))
+  · have hex : (((bits >>> 52) &&& 0x7ff).toNat == 0x7ff) = true := by
+      unfold FiniteBits at hf
+      simpa using hf
+    unfold fmtBits
+    simp only []
+    rw [hex]
+    simp only [if_true]
+    cases (bits >>> 63 != 0) <;> cases ((bits &&& 0xfffffffffffff).toNat == 0) <;>
+      simp only [if_true, Bool.false_eq_true, if_false] <;>
+      (rw [fixExponent_no_e _ (by decide)]; decide)
+
+theorem noNl_fmtFloat (P : Nat) (x : Float) : noNl (fmtFloat P x) := noNl_fixExponent_fmtBits P x.toBits
+
+/-- C04 for the actual float formatter: every non-comment statement with newline-free names is written on
+    exactly one line. -/
+theorem writeStmt_one_line_float (P : Nat) (anon : Gate Float → String) (hanon : ∀ g, noNl (anon g))
+    (s : Stmt Float) (hname : ∀ nm, s.named = some nm → noNl nm.name) (hc : ∀ t, s ≠ .comment t) :
+    ∃ body, writeStmt (fmtFloat P) anon s = body ++ "\n" ∧ noNl body :=
+  writeStmt_one_line (fmtFloat P) anon (noNl_fmtFloat P) hanon s hname hc
 
 /-! ### `roundSig` -/
 
@@ -944,11 +1046,14 @@ example : roundSig 8 (bitsFrac 0x3ee4f8b588e368f1).1 (bitsFrac 0x3ee4f8b588e368f
 
 end OSq
 
+#print axioms OSq.isCqasmFloat_iff
 #print axioms OSq.fmtPos_shape
 #print axioms OSq.fmtBits_shape
 #print axioms OSq.fixExponent_has_point
 #print axioms OSq.fixExponent_form
 #print axioms OSq.fmtFloat_literal
+#print axioms OSq.noNl_fmtFloat
+#print axioms OSq.writeStmt_one_line_float
 #print axioms OSq.roundSig_bounds
 #print axioms OSq.roundSig_bounds_rat
 #print axioms OSq.bitsFrac_range
